@@ -12,6 +12,9 @@ pub const UNIVERSE: &[&str] = &[
     "en", "en-US", "en-GB", "fr", "fr-FR", "fr-CA", "zh", "zh-Hans", "zh-Hant", "zh-Hant-TW", "de", "de-DE-1996",
 ];
 pub const JUNK: &[&str] = &["und", "*", "xx-invalid-"];
+/// identifiers that only ever appear in request lists: more specific than a supported entry through variants alone,
+/// through a script alone, or through script and region
+pub const REQUEST_ONLY: &[&str] = &["de-1996", "fr-Latn", "zh-Hant-HK"];
 
 fn icu_table() -> &'static Vec<IcuLocale> {
     static T: OnceLock<Vec<IcuLocale>> = OnceLock::new();
@@ -242,7 +245,7 @@ pub fn sweep(params: &Value) {
     let maxlen = params["maxlen"].as_u64().unwrap_or(3) as usize;
     let len3_stride = params["len3_stride"].as_u64().unwrap_or(1) as usize;
     let threads = params["threads"].as_u64().unwrap_or(16) as usize;
-    let tokens: Vec<&'static str> = UNIVERSE.iter().chain(JUNK.iter()).copied().collect();
+    let tokens: Vec<&'static str> = UNIVERSE.iter().chain(JUNK.iter()).chain(REQUEST_ONLY.iter()).copied().collect();
     let nsets: usize = (1usize << UNIVERSE.len()) - 1;
     let sets: Vec<usize> = (1..=nsets).filter(|m| (m + offset) % stride == 0).collect();
     let chunks: Vec<Vec<usize>> = (0..threads).map(|t| sets.iter().copied().skip(t).step_by(threads).collect()).collect();
